@@ -54,7 +54,12 @@ static const double PUNIT[2] = {1.0e5, PSI};     // deck pressure unit -> Pa (ME
 static const char* UNITNAME[2] = {"METRIC", "FIELD"};
 static const int L = 200;                        // saturation lattice of the table nodes: k / 200
 static const double KR_TOL = 1e-9;               // the tolerance of the property statement
-static const double MONO_SLACK = 1e-12;          // rounding slack for order comparisons
+static const double MONO_SLACK = 1e-12;          // rounding slack for order comparisons of tabulated curves
+static const double SCAN_SLACK = 1e-10;          // same for scanning curves (Killough's normalised saturation divides by a small
+                                                 // difference right after the critical saturation; a tenth of the statement's tolerance)
+
+static bool g_knownEverywhere = false;  // trial runs only (known_everywhere=1): do not confine the two known-finding input classes
+static bool g_checkFlat3pt = true;      // trial runs only (flat3pt=0): leave the known three-point vertical scaling defect out
 
 // shortest decimal text that reads back as exactly the same double
 static std::string num(double v) {
@@ -487,6 +492,9 @@ static void checkUnscaledCell(Ctx& cx, const Cell& cell, const Tab& t, int satnu
         const double ymax = *std::max_element(y.begin(), y.end());
         const double tol = isPc(c) ? pcTol(ymax) : KR_TOL;
         const std::string ck = std::string(CURVE[c]);
+        // Route 3p weights krow and krog by (Sw - Swco) and Sg; a connate saturation that the parser read one ulp away from
+        // the harness's number gives the other curve a weight of up to 1e-16 / 2e-5 at the edge of the avoided blend zone.
+        const double oilLeak = (route == 0 && (c == KROW || c == KROG)) ? 1e-10 : 0.0;
         // every node of the table
         for (size_t i = 0; i < x.size(); ++i) {
             if (cell.blendZone(route, c, x[i])) continue;
@@ -511,7 +519,7 @@ static void checkUnscaledCell(Ctx& cx, const Cell& cell, const Tab& t, int satnu
                 if (!(s > x[i] && s < x[i + 1]) || cell.blendZone(route, c, s)) continue;
                 double v = cell.eval(route, c, s);
                 ++cx.comparisons;
-                const double slack = MONO_SLACK * std::max(1.0, ymax);
+                const double slack = (MONO_SLACK + oilLeak) * std::max(1.0, ymax);
                 if (!(v >= lo - slack && v <= hi + slack) || !(dir * (v - prev) >= -slack)) {
                     std::ostringstream w; w.precision(17);
                     w << tag << " route " << ROUTE[route] << " " << ck << " between nodes " << i << " and " << i + 1 << " at S=" << s << ": value " << v
@@ -530,7 +538,7 @@ static void checkUnscaledCell(Ctx& cx, const Cell& cell, const Tab& t, int satnu
             // route 3p clamps Sw to the connate saturation for the oil curves only; below Swco the table continues constantly
             double v = cell.eval(route, c, s);
             ++cx.comparisons;
-            const double slack = MONO_SLACK * std::max(1.0, ymax);
+            const double slack = (MONO_SLACK + oilLeak) * std::max(1.0, ymax);
             bool bad = !(v >= -slack && v <= ymax + slack);
             if (!std::isnan(prev) && !(dir * (v - prev) >= -slack)) bad = true;
             if (bad) {
@@ -544,9 +552,22 @@ static void checkUnscaledCell(Ctx& cx, const Cell& cell, const Tab& t, int satnu
     }
 }
 
+// Known finding "eps-identity:<curve>:table-kr-at-displacing-critical-equals-maximum": with a KRxR keyword and a table
+// whose kr at the critical saturation of the displacing phase equals its maximum, the library extrapolates the scaled
+// curve beyond the anchor of the maximum (with a slope that is a quotient of rounding errors).  Saturations beyond that
+// anchor (outside [lo, hi] in the curve's own saturation) get this key; they are compared only where `compare` is set
+// (a stated fraction of the cases) and are counted as skipped elsewhere.  Everything inside keeps the plain key.
+struct Beyond {
+    bool active[NCURVE] = {};
+    double lo[NCURVE], hi[NCURVE];
+    bool compare = true;
+    Beyond() { for (int c = 0; c < NCURVE; ++c) { lo[c] = -INFINITY; hi[c] = INFINITY; } }
+};
+
 // two cells (same element of two managers) give the same curves on grid + given extra saturations
 static void compareCells(Ctx& cx, const Cell& a, const Cell& b, const std::string& key, const std::string& tag, const Tab& t, double punit,
-                         int grid, bool comparePc = true) {
+                         int grid, bool comparePc = true, const Beyond* by = nullptr) {
+    static const std::string BEYOND = ":table-kr-at-displacing-critical-equals-maximum";
     for (int route = 0; route < 2; ++route) for (int c = 0; c < NCURVE; ++c) {
         if (!a.supported(route, c) || !b.supported(route, c)) continue;
         if (isPc(c) && !comparePc) continue;
@@ -560,8 +581,11 @@ static void compareCells(Ctx& cx, const Cell& a, const Cell& b, const std::strin
         double worst = 0;
         for (double s : ss) {
             if (a.blendZone(route, c, s)) continue;
+            const bool beyond = by && by->active[c] && (s < by->lo[c] || s > by->hi[c]);
+            if (beyond && (!by->compare || !g_checkFlat3pt)) { cx.rep.count("identity_points_beyond_max_anchor_skipped"); continue; }
+            if (beyond) cx.rep.count("identity_points_beyond_max_anchor_compared");
             double va = a.eval(route, c, s), vb = b.eval(route, c, s);
-            cx.closeLazy([&] { return key + ":" + CURVE[c]; },
+            cx.closeLazy([&] { return key + ":" + CURVE[c] + (beyond ? BEYOND : std::string()); },
                          [&] { std::ostringstream w; w.precision(17);
                                w << tag << " route " << ROUTE[route] << " " << CURVE[c] << " at S=" << s; return w.str(); },
                          va, vb, tol);
@@ -670,7 +694,8 @@ static const int MAXSIDE[4] = {2, 0, 2, 0};
 // Domain of the generator: ordered end-points with a margin, the mobile ranges of two phases overlap; two anchors of
 // a curve may coincide only if the corresponding anchors of the table coincide too (otherwise the input names two
 // different table saturations for one scaled saturation and the statement is silent about which one wins).
-static bool validEndPts(const EndPts& e, const EndPts& T) {
+// The displacing-critical (middle) anchors only matter with three-point saturation scaling or a KRxR keyword.
+static bool validEndPts(const EndPts& e, const EndPts& T, bool needMiddle) {
     const double m = 0.02;
     const double* v = e.v;
     if (!(v[E_SWL] >= 0 && v[E_SWL] <= v[E_SWCR] && v[E_SWU] <= 1.0 && v[E_SWL] + m <= v[E_SWU])) return false;
@@ -679,7 +704,7 @@ static bool validEndPts(const EndPts& e, const EndPts& T) {
     const Anchors A = anchorsOf(v), B = anchorsOf(T.v);
     for (int i = 0; i < 4; ++i) {
         if (!(A.a[i][0] + m <= A.a[i][2])) return false;
-        for (int j = 0; j < 2; ++j) {
+        for (int j = 0; j < 2 && needMiddle; ++j) {
             double d = A.a[i][j + 1] - A.a[i][j];
             bool coincideT = B.a[i][j + 1] == B.a[i][j];
             if (!(d >= m || (d == 0.0 && coincideT))) return false;
@@ -691,19 +716,20 @@ static bool validEndPts(const EndPts& e, const EndPts& T) {
 static double roundTrip(double v) { return strtod(num(v).c_str(), nullptr); }
 
 // choose the keywords, the per-cell entries (explicit / defaulted) and the effective end-points E of every cell
-static std::vector<EndPts> genEndPoints(Rng& rng, Model& m, bool identity) {
+static std::vector<EndPts> genEndPoints(Rng& rng, Model& m, bool identity, const bool* allowed = nullptr, bool twoPointOnly = false) {
     const int nc = m.ncell;
     m.endscale = true;
-    m.threepoint = rng.chance(0.5);
+    m.threepoint = !twoPointOnly && rng.chance(0.5);
     m.scalecrsKw = m.threepoint || rng.chance(0.5);
     int nkw = 0;
     for (int k = 0; k < E_N; ++k) {
         double p = k <= E_SOGCR ? 0.55 : k <= E_PCG ? 0.4 : 0.25;
         if (k == E_SGL) p = 0.15;
-        m.present[k] = rng.chance(p);
+        m.present[k] = rng.chance(p) && (!allowed || allowed[k]);
         nkw += m.present[k];
     }
     if (nkw == 0) { m.present[E_SWL] = m.present[E_SWCR] = m.present[E_SOWCR] = true; }
+    const bool needMiddle = m.threepoint || m.present[E_KRWR] || m.present[E_KRORW] || m.present[E_KRGR] || m.present[E_KRORG];
     m.arrText.assign(nc, {});
     std::vector<EndPts> E(nc);
     for (int c = 0; c < nc; ++c) {
@@ -735,7 +761,7 @@ static std::vector<EndPts> genEndPoints(Rng& rng, Model& m, bool identity) {
             if (explicitEntry[E_KRGR]) v[E_KRGR] = v[E_KRG] * rng.uniform(0.2, 1.0);
             if (explicitEntry[E_KRORG]) v[E_KRORG] = v[E_KRO] * rng.uniform(0.2, 1.0);
             for (int k = 0; k < E_N; ++k) v[k] = roundTrip(v[k]);
-            if (validEndPts(e, T)) break;
+            if (validEndPts(e, T, needMiddle)) break;
             if (attempt == 58) { e = T; for (int k = 0; k < E_N; ++k) explicitEntry[k] = m.present[k]; break; }
         }
         // where the displacing-critical anchor coincides with the anchor of the maximum, KRxR and KRx name the same point
@@ -802,10 +828,13 @@ static void checkEndPointMapping(Ctx& cx, const Cell& cell, const Model& m, cons
         auto V = [&](int c, const char* pt, double s, double expect, double tol) {
             if (!cell.supported(route, c) || cell.blendZone(route, c, s)) return;
             const int ci = CURVE_OF[c];
-            const bool fl = ci >= 0 && flat[ci];
+            // route 3p averages krow and krog at Sw + Sg = Swco: there either curve's condition applies
+            const bool atBlend = route == 0 && ((c == KROW && s == cell.swl) || (c == KROG && s == 0.0));
+            const bool fl = ci >= 0 && (flat[ci] || (atBlend && (flat[1] || flat[2])));
+            if (fl && !g_checkFlat3pt) return;
             std::ostringstream w; w.precision(17);
             w << tag << " route " << ROUTE[route] << " " << CURVE[c] << " at scaled end-point " << pt << " (S=" << s << ")";
-            if (fl) {
+            if (fl && flat[ci]) {
                 // for the witness: the value in the middle between the displacing-critical anchor and the anchor of the maximum
                 double xm = 0.5 * (An.a[ci][1] + An.a[ci][MAXSIDE[ci]]);
                 double sm = isGas(c) ? 1.0 - e[E_SWL] - xm : xm;
@@ -845,6 +874,7 @@ static void caseEps(vh::Reporter& rep, long idx, Rng& rng, int grid) {
     Model m = baseModel(rng, idx);
     m.family = rng.chance(0.7) ? 1 : 2;
     const bool identity = rng.chance(0.45);
+    const bool knownClass = (idx / 10) % 10 == 0 || g_knownEverywhere;      // 10% of the eps cases compare the saturations of struct Beyond
     TabOpts o; o.punit = PUNIT[m.unit]; o.zeroPc = false;
     for (int r = 0; r < m.ndrain; ++r) m.tabs.push_back(genTab(rng, o));
     std::vector<EndPts> E = genEndPoints(rng, m, identity);
@@ -868,7 +898,15 @@ static void caseEps(vh::Reporter& rep, long idx, Rng& rng, int grid) {
             if (same) {
                 // scaling with the table's own end-points is the identity
                 Cell c0(*b0.mgr, c, t.Swl);
-                compareCells(cx, ce, c0, "eps-identity", cellTag(c, m.satnum[c]) + (m.threepoint ? " three-point" : " two-point"), t, PUNIT[m.unit], grid);
+                // saturations beyond the anchor of the maximum of a curve with a KRxR keyword and a flat table: see struct Beyond
+                Beyond by;
+                by.compare = knownClass;
+                auto flatR = [&](int rk, int mk) { return m.present[rk] && std::fabs(T.v[rk] - T.v[mk]) <= 1e-9; };
+                if (flatR(E_KRWR, E_KRW)) { by.active[KRW] = true; by.hi[KRW] = t.Swu; }
+                if (flatR(E_KRORW, E_KRO)) { by.active[KROW] = true; by.lo[KROW] = t.Swl + t.Sgl; }
+                if (flatR(E_KRGR, E_KRG)) { by.active[KRG] = true; by.hi[KRG] = t.Sgu; }
+                if (flatR(E_KRORG, E_KRO)) { by.active[KROG] = true; by.lo[KROG] = t.Sgl; }
+                compareCells(cx, ce, c0, "eps-identity", cellTag(c, m.satnum[c]) + (m.threepoint ? " three-point" : " two-point"), t, PUNIT[m.unit], grid, true, &by);
                 rep.count("cells_identity_scaling");
             } else {
                 rep.count("cells_random_scaling");
@@ -887,6 +925,46 @@ static void caseEps(vh::Reporter& rep, long idx, Rng& rng, int grid) {
 // ---------------------------------------------------------------------------------------------
 // case class 3: hysteresis
 // ---------------------------------------------------------------------------------------------
+// hysteresis combined with (two-point) end-point scaling: drainage arrays as in the eps class (saturation end-points and
+// KRW/KRO/KRG only), imbibition arrays (I-prefixed) that keep the curves meeting at the maximum non-wetting saturation:
+// ISWL/ISWU/ISGU/IKRO/IKRG mirror the drainage arrays, the critical non-wetting saturations are not below the drainage ones.
+// With `identical` every I-array mirrors its drainage array.  Returns false if no valid set was found.
+static bool genHystEndPoints(Rng& rng, Model& m, bool identical, std::vector<EndPts>& Ed) {
+    bool allowed[E_N] = {};
+    for (int k : {E_SWL, E_SWCR, E_SWU, E_SGCR, E_SGU, E_SOWCR, E_SOGCR, E_KRW, E_KRO, E_KRG}) allowed[k] = true;
+    Ed = genEndPoints(rng, m, false, allowed, true);
+    const int nc = m.ncell;
+    m.iarrText.assign(nc, {});
+    static const int SHARED[] = {E_SWL, E_SWU, E_SGU, E_KRO, E_KRG};
+    static const int OWN[] = {E_SWCR, E_SGCR, E_SOWCR, E_SOGCR, E_KRW};
+    for (int k : SHARED) m.ipresent[k] = m.present[k];
+    for (int k : OWN) m.ipresent[k] = identical ? m.present[k] : (rng.chance(0.5) || ((k == E_SOWCR || k == E_SGCR) && m.present[k]));
+    for (int c = 0; c < nc; ++c) {
+        if (identical) { m.iarrText[c] = m.arrText[c]; continue; }
+        const EndPts Ti = tableEndPts(m.tabs[m.imbnum[c] - 1]);
+        bool done = false;
+        for (int attempt = 0; attempt < 60 && !done; ++attempt) {
+            EndPts e = Ti;
+            std::array<std::string, E_N> txt;
+            for (int k : SHARED) if (m.ipresent[k]) { e.v[k] = Ed[c].v[k]; txt[k] = m.arrText[c][k]; }
+            double* v = e.v;
+            auto put = [&](int k, double val) { v[k] = roundTrip(val); txt[k] = num(v[k]); };
+            if (m.ipresent[E_SWCR]) { if (rng.chance(0.15)) txt[E_SWCR] = "1*"; else put(E_SWCR, v[E_SWL] + rng.uniform(0.0, 0.15)); }
+            if (m.ipresent[E_KRW]) { if (rng.chance(0.15)) txt[E_KRW] = "1*"; else put(E_KRW, rng.uniform(0.1, 1.0)); }
+            if (m.ipresent[E_SOWCR]) put(E_SOWCR, std::max(Ed[c].v[E_SOWCR], Ti.v[E_SOWCR]) + rng.uniform(0.0, 0.1));
+            if (m.ipresent[E_SGCR]) put(E_SGCR, std::max(Ed[c].v[E_SGCR], Ti.v[E_SGCR]) + rng.uniform(0.0, 0.1));
+            if (m.ipresent[E_SOGCR]) { if (rng.chance(0.15)) txt[E_SOGCR] = "1*"; else put(E_SOGCR, rng.uniform(0.0, 0.3)); }
+            if (!(v[E_SOWCR] >= Ed[c].v[E_SOWCR] && v[E_SGCR] >= Ed[c].v[E_SGCR])) continue;
+            if (v[E_SWL] != Ed[c].v[E_SWL] || v[E_SGU] != Ed[c].v[E_SGU] || v[E_KRO] != Ed[c].v[E_KRO] || v[E_KRG] != Ed[c].v[E_KRG]) continue;
+            if (!validEndPts(e, Ti, false)) continue;
+            m.iarrText[c] = txt;
+            done = true;
+        }
+        if (!done) return false;
+    }
+    return true;
+}
+
 struct History { std::vector<double> s; std::vector<bool> turn; int reversals = 0; };
 
 // zig-zag history of `steps` saturations in [lo, hi] with nrev reversals
@@ -954,14 +1032,34 @@ static void caseHyst(vh::Reporter& rep, long idx, Rng& rng, int steps, bool allo
     if (imbMode == 0 || imbMode == 2) for (int c = 0; c < m.ncell; ++c) m.imbnum.push_back(m.satnum[c] + m.ndrain);
     if (imbMode == 1) m.imbnum = m.satnum;
     const bool identical = imbMode != 0;
-    const std::string dH = deckText(m, false, true), dD = deckText(m, false, false);
+    // a third of the cases combine hysteresis with two-point end-point scaling
+    std::vector<EndPts> Ed;
+    // Known finding "carlson-identical-curves:IMBNUM absent:I-arrays present": without IMBNUM, I-prefixed arrays make the
+    // library take the imbibition curves of region 1; that input class is confined to a quarter of the case decades
+    const bool iArraysWithoutImbnum = (idx / 10) % 4 == 0 || g_knownEverywhere;
+    if (rng.chance(0.33) && (imbMode != 3 || iArraysWithoutImbnum)) {
+        if (imbMode == 3) m.imbnum = m.satnum;              // the imbibition tables of the cells, for the generator only
+        bool okEps = genHystEndPoints(rng, m, identical, Ed);
+        if (imbMode == 3) m.imbnum.clear();
+        if (!okEps) {
+            m.endscale = false; m.scalecrsKw = false;
+            for (int k = 0; k < E_N; ++k) m.present[k] = m.ipresent[k] = false;
+            Ed.clear();
+            rep.count("hyst_eps_generator_gave_up");
+        }
+    }
+    const bool eps = m.endscale;
+    const std::string dH = deckText(m, true, true), dD = deckText(m, true, false);
     Built bH = build(dH, m.ncell), bD = build(dD, m.ncell);
     coverModel(rep, m, identical ? "hyst-identical-curves" : "hyst");
     rep.cover("family", m.family == 1 ? "I" : "II");
     rep.cover("ehystr_model", std::to_string(m.ehystr) + (carlson ? " (Carlson)" : " (Killough)"));
     rep.cover("ehystr_flag", m.ehFlag);
-    static const char* IMB[] = {"own imbibition tables", "IMBNUM = SATNUM", "IMBNUM -> identical copy", "IMBNUM absent"};
+    static const char* IMBNAME[] = {"own imbibition tables", "IMBNUM = SATNUM", "IMBNUM -> identical copy", "IMBNUM absent", "IMBNUM absent:I-arrays present"};
+    const char* const* IMB = IMBNAME;
+    if (imbMode == 3 && eps) imbMode = 4;
     rep.cover("imbibition_curves", IMB[imbMode]);
+    rep.cover("hysteresis_with_endscale", eps ? "yes (two-point)" : "no");
     Ctx cx(rep);
     cx.witnessHead = "--- deck with hysteresis ---\n" + dH;
     bool ok = !refused(rep, bH, "hyst") & !refused(rep, bD, "hyst_reference");
@@ -970,7 +1068,8 @@ static void caseHyst(vh::Reporter& rep, long idx, Rng& rng, int steps, bool allo
     if (ok) {
         for (int c = 0; c < m.ncell; ++c) {
             const Tab& t = m.tabs[m.satnum[c] - 1];
-            const double swl = t.Swl;
+            const EndPts E = eps ? Ed[c] : tableEndPts(t);       // the drainage end-points of the cell
+            const double swl = E.v[E_SWL];
             Cell ch(*bH.mgr, c, swl), cd(*bD.mgr, c, swl);
             const bool gasSystem = rng.chance(0.5);
             rep.cover("history_system", gasSystem ? "gas-oil (Sw = Swco)" : "oil-water (Sg = 0)");
@@ -978,7 +1077,7 @@ static void caseHyst(vh::Reporter& rep, long idx, Rng& rng, int steps, bool allo
             const int nrev = (int)rng.range(1, 5);
             // inside the tabulated saturation range (beyond it the curves continue constantly, and Carlson's horizontal
             // shift is not unique on a constant stretch); route 3p blends the oil curves within 1e-5 of Swco
-            const double lo = gasSystem ? 0.0 : swl + 1e-3, hi = gasSystem ? t.Sgu : 1.0;
+            const double lo = gasSystem ? 0.0 : swl + 1e-3, hi = gasSystem ? E.v[E_SGU] : 1.0;
             History h = genHistory(rng, lo, hi, steps, nrev, gasSystem ? t.sg : t.sw);
             rep.cover("history_reversals", std::to_string(std::min(h.reversals, 6)));
             if (firstHist.empty()) {
@@ -991,8 +1090,9 @@ static void caseHyst(vh::Reporter& rep, long idx, Rng& rng, int steps, bool allo
             auto X = [&](double s) { return gasSystem ? 1.0 - swl - s : s; };
             auto S = [&](double x) { return gasSystem ? 1.0 - swl - x : x; };
             const double xhi = gasSystem ? 1.0 - swl : 1.0;
-            const double krnMax = gasSystem ? t.krgMax : t.kroMax;
+            const double krnMax = gasSystem ? E.v[E_KRG] : E.v[E_KRO];
             Trace tr[2];
+            double maxSo = -INFINITY, maxSg = -INFINITY;
             const std::string tag = cellTag(c, m.satnum[c]) + (gasSystem ? " gas-oil system" : " oil-water system") + " EHYSTR model " + std::to_string(m.ehystr);
             for (size_t k = 0; k < h.s.size(); ++k) {
                 const double s = h.s[k], x = X(s);
@@ -1013,10 +1113,12 @@ static void caseHyst(vh::Reporter& rep, long idx, Rng& rng, int steps, bool allo
                         // on the scanning curve that starts at xmin: monotone with every other observation on it and
                         // not above the value at the reversal point
                         ++cx.comparisons;
-                        bool bad = !(got >= -MONO_SLACK) || !(got <= cd.eval(route, KRN, S(T.xmin)) + KR_TOL);
-                        auto it = T.scan.lower_bound(x);
-                        if (it != T.scan.end() && !(it->second <= got + MONO_SLACK)) bad = true;            // larger x: smaller krn
-                        if (it != T.scan.begin() && !(std::prev(it)->second >= got - MONO_SLACK)) bad = true;
+                        bool bad = !(got >= -SCAN_SLACK) || !(got <= cd.eval(route, KRN, S(T.xmin)) + KR_TOL);
+                        // neighbours closer than 1e-7 carry no information beyond rounding: not compared
+                        auto it = T.scan.lower_bound(x + 1e-7);
+                        if (it != T.scan.end() && !(it->second <= got + SCAN_SLACK)) bad = true;            // larger x: smaller krn
+                        auto lt = T.scan.upper_bound(x - 1e-7);
+                        if (lt != T.scan.begin() && !(std::prev(lt)->second >= got - SCAN_SLACK)) bad = true;
                         if (bad) cx.fail("hyst-scanning-monotone", where() + " non-wetting kr " + num(got) + " on the scanning curve from S=" + num(S(T.xmin)) +
                                          " is negative, above the value at the reversal point or not monotone with the earlier observations on this curve");
                         T.scan[x] = got;
@@ -1042,6 +1144,15 @@ static void caseHyst(vh::Reporter& rep, long idx, Rng& rng, int steps, bool allo
                     fs.setSaturation(0, Sw); fs.setSaturation(1, 1.0 - Sw - Sg); fs.setSaturation(2, Sg);
                     bool changed = bH.mgr->updateHysteresis(fs, (unsigned)c);
                     rep.count(changed ? "updates_changed" : "updates_unchanged");
+                    // the scanning curves start at the reversal point: the extreme non-wetting saturations the manager keeps
+                    // (and reports) are the extremes of the history
+                    maxSo = std::max(maxSo, 1.0 - Sw - Sg); maxSg = std::max(maxSg, Sg);
+                    double soMax = NAN, swMax = NAN, swMin = NAN, sgMax = NAN, shMax = NAN, soMin = NAN;
+                    bH.mgr->oilWaterHysteresisParams(soMax, swMax, swMin, (unsigned)c);
+                    bH.mgr->gasOilHysteresisParams(sgMax, shMax, soMin, (unsigned)c);
+                    auto where = [&] { std::ostringstream w; w.precision(17); w << tag << " after the update of step " << k << " (Sw=" << Sw << ", Sg=" << Sg << ")"; return w.str(); };
+                    cx.closeLazy([] { return std::string("hyst-reversal-point:oil-water"); }, [&] { return where() + " largest oil saturation kept by the manager vs. largest of the history"; }, soMax, maxSo, 1e-12);
+                    cx.closeLazy([] { return std::string("hyst-reversal-point:gas-oil"); }, [&] { return where() + " largest gas saturation kept by the manager vs. largest of the history"; }, sgMax, maxSg, 1e-12);
                 }
                 bool newExtreme = false;
                 for (int route = 0; route < 2; ++route) if (x < tr[route].xmin) { tr[route].xmin = x; tr[route].scan.clear(); newExtreme = true; }
@@ -1056,7 +1167,7 @@ static void caseHyst(vh::Reporter& rep, long idx, Rng& rng, int steps, bool allo
                     w << tag << " route " << ROUTE[route] << " after step " << k << " (extreme saturation S=" << S(xm) << ", drainage kr there " << kd << ")";
                     // drainage curve below the extreme
                     for (int q = 1; q <= 8; ++q) {
-                        const double xlo = gasSystem ? 1.0 - swl - t.Sgu : swl + 1e-3;
+                        const double xlo = gasSystem ? 1.0 - swl - E.v[E_SGU] : swl + 1e-3;
                         double x2 = xm - (xm - xlo) * q / 8.0 * rng.unit();
                         if (!(x2 < xm - 1e-9) || x2 < xlo) continue;
                         cx.close("hyst-drainage-until-reversal", w.str() + " non-wetting kr at S=" + num(S(x2)) + " beyond the extreme", ch.eval(route, KRN, S(x2)), cd.eval(route, KRN, S(x2)), KR_TOL);
@@ -1064,8 +1175,10 @@ static void caseHyst(vh::Reporter& rep, long idx, Rng& rng, int steps, bool allo
                     if (!(xm + 2e-3 < xhi)) continue;
                     // continuity at the reversal point: approach it from the scanning side on a geometric sequence; the
                     // distance to the drainage value must vanish like the local slope times the distance
+                    // (down to 1e-12: a kink of the piecewise linear curve inside the last interval would spoil the slope estimate)
                     double slope = 0, prevv = NAN, prevd = NAN, last = NAN;
-                    for (double d = 1e-3; d > 0.5e-9; d *= 0.1) {
+                    const double dmin = 1e-12;
+                    for (double d = 1e-3; d > 0.5 * dmin; d *= 0.1) {
                         double v = ch.eval(route, KRN, S(xm + d));
                         if (!std::isnan(prevv)) slope = std::max(slope, std::fabs(v - prevv) / (prevd - d));
                         prevv = v; prevd = d; last = v;
@@ -1073,8 +1186,8 @@ static void caseHyst(vh::Reporter& rep, long idx, Rng& rng, int steps, bool allo
                     ++cx.comparisons;
                     const double jump = std::fabs(last - kd);
                     rep.maxof("max_jump_at_reversal_point", jump);
-                    if (!(jump <= KR_TOL + 4e-9 * slope))
-                        cx.fail("hyst-scanning-continuity", w.str() + ": the scanning curve arrives at " + num(last) + " 1e-9 above the reversal point (local slope " + num(slope) + "), jump " + num(jump));
+                    if (!(jump <= KR_TOL + 4 * dmin * slope))
+                        cx.fail("hyst-scanning-continuity", w.str() + ": the scanning curve arrives at " + num(last) + " 1e-12 above the reversal point (local slope " + num(slope) + "), jump " + num(jump));
                     // monotone and bounded on a grid from the reversal point to the maximum wetting saturation
                     const int G = 64;
                     double prev = kd;
@@ -1082,7 +1195,7 @@ static void caseHyst(vh::Reporter& rep, long idx, Rng& rng, int steps, bool allo
                         double x2 = xm + (xhi - xm) * q / G;
                         double v = ch.eval(route, KRN, S(x2));
                         ++cx.comparisons;
-                        if (!(v <= prev + MONO_SLACK + (q == 1 ? KR_TOL : 0)) || !(v >= -MONO_SLACK) || !(v <= krnMax + KR_TOL)) {
+                        if (!(v <= prev + SCAN_SLACK + (q == 1 ? KR_TOL : 0)) || !(v >= -SCAN_SLACK) || !(v <= krnMax + KR_TOL)) {
                             cx.fail("hyst-scanning-monotone", w.str() + ": scanning curve value " + num(v) + " at S=" + num(S(x2)) + " after " + num(prev) +
                                     " at the previous grid point is not monotone or outside [0, max]");
                         }
@@ -1108,6 +1221,8 @@ int main(int argc, char** argv) {
     const int grid = (int)args.geti("grid", 400);
     const int steps = (int)args.geti("steps", 200);
     const std::string only = args.get("class", "");
+    g_checkFlat3pt = args.geti("flat3pt", 1) != 0;
+    g_knownEverywhere = args.geti("known_everywhere", 0) != 0;
     const bool imbnumAbsent = args.geti("imbnum_absent", 1) != 0;   // trial runs only: 0 leaves the IMBNUM-less decks out
     rep.run_cases([&](long idx, Rng& rng) {
         int k = (int)(idx % 10);
